@@ -88,7 +88,7 @@ def drive(ctx, hlog, rng, path, fields, tag):
         ctx.case(tag + d.hex(), len(d) >= 1 and len(fields) >= 1,
                  sample={"fields": fields[:3], "data_hex": d[:24].hex()} if len(d) == 7 else None)
         try:
-            hlog.parse_hlog_data(memoryview(d) if rng.random() < 0.5 else d, path)
+            hlog.parse_hlog_data(iogen.view_of(rng, d), path)
         except Exception as e:
             ctx.violation("C16/decoder-raised/" + type(e).__name__, "parse_hlog_data raised %r" % (e,), data=d[:300], fields=fields[:60])
 
@@ -103,9 +103,19 @@ def run(spec, ctx):
         for i in range(spec["n"]):
             fields = iogen.gen_fields(rng, rng.choice([0, 1, 2, 3, 5, 8, 12, 20, 38]) if i % 6 else rng.choice([80, 120]))
             path = os.path.join(root, "hl_%d.h" % (i % 3))       # paths are reused: the file is rewritten with another table
-            im.write_pte_table(path, iogen.gen_table(rng, 2), rng, hlog_fields=fields, style=rng.randrange(8))
+            im.write_pte_table(path, iogen.gen_table(rng, 2), rng, hlog_fields=fields, style=rng.randrange(16))
             TABLES[os.path.abspath(path)] = list(fields)
             drive(ctx, hlog, rng, path, fields, "syn%d-%d" % (spec["rseed"], i))
+            if fields and i % 4 == 0:
+                # the same path, same size, same time stamps - but another table (widths of two fields swapped)
+                k = rng.randrange(len(fields))
+                f2 = list(fields)
+                f2[k] = (f2[k][0], 3 - f2[k][1])
+                target = '{ %d, "%s" }' % fields[k][::-1]
+                if iogen.rewrite_same_stat(path, lambda t: t.replace(target, '{ %d, "%s" }' % f2[k][::-1], 1) if t.count(target) == 1 else None):
+                    TABLES[os.path.abspath(path)] = f2
+                    ctx.count("workload.same_stat_rewrites")
+                    drive(ctx, hlog, rng, path, f2, "syn%d-%d-rw" % (spec["rseed"], i))
         return
     from io_drawer.drawer_type import MEX_DRAWER_TYPE, NIMITZ_DRAWER_TYPE
     dt = MEX_DRAWER_TYPE if spec["which"] == "mex" else NIMITZ_DRAWER_TYPE
